@@ -43,8 +43,11 @@ type Harness struct {
 	Exec func(x *Run)
 	// Post (optional) runs after the bubble: history checks over what Exec recorded.
 	Post func(x *Run)
-	// LeakOK (optional): bubble goroutines left blocked at the end are not a violation
-	// (used only by harnesses whose property says nothing about goroutines).
+	// LeakIsViolation: goroutines left blocked when the bubble ends violate the property
+	// (only for properties that promise it, e.g. C07 "their goroutines are gone").
+	LeakIsViolation bool
+	// LeakOK: goroutines left blocked at the end are expected and merely counted (probe);
+	// default (both false): the run is marked inconclusive and counted, never a violation.
 	LeakOK bool
 	// NoBubble runs Exec directly (pure discrete-event harnesses with their own clock).
 	NoBubble bool
@@ -230,6 +233,10 @@ func Main(t *testing.T, hs ...*Harness) {
 			fmt.Fprintf(prog, "%d %d\n", i, seed)
 		}
 		sc := h.Gen(NewRand(seed, StreamGen), tier)
+		if prog != nil && os.Getenv("HYSIM_SHOWSCRIPT") != "" {
+			b, _ := json.Marshal(sc)
+			fmt.Fprintf(prog, "# %s\n", b)
+		}
 		traceAll := os.Getenv("HYSIM_TRACEALL") != ""
 		x := h.runOne(t, seed, sc, nil, traceAll)
 		if traceAll && outPath != "" {
@@ -278,7 +285,13 @@ func Main(t *testing.T, hs ...*Harness) {
 			cls := x.Viol.Class
 			if !seenClass[cls] || len(out.Violations) < maxViol+len(knownSeen) {
 				seenClass[cls] = true
+				if outPath != "" {
+					os.WriteFile(outPath+".shrinking", []byte("1"), 0o644)
+				}
 				rp := h.minimise(t, seed, sc, x, tier, shrinkBudget)
+				if outPath != "" {
+					os.Remove(outPath + ".shrinking")
+				}
 				out.Violations = append(out.Violations, rp)
 			}
 			if len(out.Violations) >= maxViol+len(knownSeen) {
@@ -377,10 +390,16 @@ func (h *Harness) runOne(t *testing.T, seed uint64, sc *Script, yl []YieldDecisi
 			case strings.Contains(s, "deadlock"):
 				// synctest: every goroutine of the bubble is durably blocked and the root has
 				// exited (leak) or is itself blocked (deadlock).
-				if !h.LeakOK {
+				switch {
+				case h.LeakIsViolation:
 					x.Violate("goroutine-leak", "bubble ended with blocked goroutines: %s; tasks alive: %v", firstLine(s), x.Alive())
-				} else {
+				case h.LeakOK:
 					x.Probe("bubble-ended-with-blocked-goroutines")
+				default:
+					// the property of this harness says nothing about goroutines: a leak is reported
+					// in the evidence (inconclusive run + probe), never as a violation
+					x.Probe("bubble-ended-with-blocked-goroutines")
+					x.Inconclusive("bubble ended with blocked goroutines")
 				}
 				if p := os.Getenv("HYSIM_LEAKLOG"); p != "" {
 					f, _ := os.OpenFile(p, os.O_CREATE|os.O_WRONLY|os.O_APPEND, 0o644)
